@@ -225,6 +225,37 @@ def main():
             srv.shutdown()
             srv.server_close()
             res["requests"].append({"key": f"intro{j}", "log": log, "url": url})
+        # 4. a history: several generations in THIS process over the SAME configuration dict object, the
+        #    environment changing in between (what a long-lived caller of main.client does)
+        hist = sc.get("history")
+        if hist:
+            from ariadne_codegen.main import client
+            import copy
+
+            log: list = []
+            srv = serve(sdl, log)
+            url = f"http://127.0.0.1:{srv.server_port}/graphql"
+            cfg = {"tool": {"ariadne-codegen": dict(base, remote_schema_url=url, remote_schema_headers=dict(hist["headers"]),
+                                                     target_package_name="pk_hist")}}
+            orig = copy.deepcopy(cfg)
+            steps = []
+            for env in hist["envs"]:
+                for k in [k for k in os.environ if k.startswith("C19_")]:
+                    del os.environ[k]
+                os.environ.update(env)
+                n0 = len(log)
+                err = None
+                try:
+                    with contextlib.redirect_stdout(io.StringIO()):
+                        client(cfg)
+                except BaseException as e:  # noqa
+                    err = {"type": type(e).__module__ + "." + type(e).__name__, "msg": str(e)[:300]}
+                steps.append({"error": err, "requests": log[n0:], "config_unchanged": cfg == orig,
+                              "package": None if err else canon_package("pk_hist")})
+                shutil.rmtree("pk_hist", ignore_errors=True)
+            srv.shutdown()
+            srv.server_close()
+            res["history"] = {"url": url, "steps": steps}
     except BaseException:  # noqa
         res["worker_error"] = traceback.format_exc()[-2000:]
     finally:
